@@ -456,6 +456,8 @@ impl Engine {
         std::fs::create_dir_all(&data).map_err(|e| e.to_string())?;
         std::fs::create_dir_all(&ws).map_err(|e| e.to_string())?;
         isolate_process_env(root);
+        // the daemon's workspace root is its working directory; tools without an explicit cwd run there
+        std::env::set_current_dir(&ws).map_err(|e| format!("chdir: {e}"))?;
         let rt = tokio::runtime::Builder::new_current_thread().enable_all().build().map_err(|e| format!("runtime: {e}"))?;
         let provider = rt.block_on(start_provider(script))?;
         prepare(root, &ws, &provider.addr);
@@ -500,6 +502,8 @@ impl Engine {
         std::fs::create_dir_all(&data).map_err(|e| e.to_string())?;
         std::fs::create_dir_all(&ws).map_err(|e| e.to_string())?;
         isolate_process_env(root);
+        // the daemon's workspace root is its working directory; tools without an explicit cwd run there
+        std::env::set_current_dir(&ws).map_err(|e| format!("chdir: {e}"))?;
         let rt = if WORKER_THREADS.load(std::sync::atomic::Ordering::SeqCst) > 0 {
             tokio::runtime::Builder::new_multi_thread().worker_threads(WORKER_THREADS.load(std::sync::atomic::Ordering::SeqCst)).enable_all().build().map_err(|e| format!("runtime: {e}"))?
         } else {
